@@ -18,9 +18,16 @@ from concurrent.futures import Future, Executor, CancelledError
 from concurrent.futures import TimeoutError as FTimeoutError
 
 import os
+import sys
 import vsched
 
-vsched.install(os.environ.get("VERIF_REPO", "/repo"))
+if os.environ.get("VERIF_PROM") == "1":
+    os.environ["MORE_EXECUTORS_PROMETHEUS"] = "1"
+    vsched.install(os.environ.get("VERIF_REPO", "/repo"),
+                   extra_path=os.path.join(os.path.dirname(os.path.abspath(__file__)), "standin"))
+else:
+    os.environ["MORE_EXECUTORS_PROMETHEUS"] = "0"
+    vsched.install(os.environ.get("VERIF_REPO", "/repo"))
 
 from more_executors import Executors
 from more_executors import futures as mf
@@ -912,6 +919,8 @@ class World(object):
             f = self.executor(op[1]).submit(fn, *_thaw(op[4]), **dict(op[5] if len(op) > 5 else {}))
             self.futs[op[2]] = f
             return "submitted"
+        if k == "metrics":
+            return sys.modules["prometheus_client"].dump()
         if k == "threads":
             # library-created threads that are still alive right now
             return sorted(t.name for t in self.s.threads if not t.client and not t.done)
@@ -989,6 +998,9 @@ def reset_library_globals():
     import more_executors._impl.event as ev
 
     ft.EXECUTOR_REF = None
+    pc = sys.modules.get("prometheus_client")
+    if pc is not None and hasattr(pc, "reset"):
+        pc.reset()
     ev.GLOBAL_HANDLER.shutdown = False
     ev.GLOBAL_HANDLER.atexit_registered = True  # same code path in every case, first or not
     ev.GLOBAL_HANDLER.events = [r for r in ev.GLOBAL_HANDLER.events if r() is not None]
